@@ -148,6 +148,7 @@ def run_rate(prog: Program, roles, sizes: Sequence[int], levels: Optional[Sequen
     w = World(prog, roles, Box())
     I = w.I
     I.number_locals = True
+    I.explicit = True
     common = prog.modules.get(f"{prog.package}.models.weng_lin.common")
     if common is not None and opaque:
         I.opaque_funcs = {common.funcs[n].fq for n in opaque if n in common.funcs}
@@ -173,6 +174,7 @@ def run_predict(prog: Program, roles, op: str, sizes: Sequence[int], order: Opti
     w = World(prog, roles, Box())
     I = w.I
     I.number_locals = True
+    I.explicit = True
     common = prog.modules.get(f"{prog.package}.models.weng_lin.common")
     if common is not None and opaque:
         I.opaque_funcs = {common.funcs[n].fq for n in opaque if n in common.funcs}
@@ -644,3 +646,354 @@ def add_instances(rep, job_fn, jobs, rule: str, floor: int) -> None:
     rep.floor(rule, floor)
     rep.trust("explicit small games (osv/rules/game.py): every team, player and rank value its own abstract object, one assumed weak ordering of the rank values per run; "
               "polynomial normal form with denominators cleared (osv/poly.py), f(z) + f(-z) = 1 for the logistic shape and the Gaussian CDF role")
+
+
+# ---------------------------------------------------------------------------------------------------------------------
+# predictions on explicit games
+# ---------------------------------------------------------------------------------------------------------------------
+
+PRED_SIZES = [(1, 1), (2, 1), (1, 1, 1), (1, 2, 1)]
+PRED_THOROUGH = [(1, 1, 1, 1), (2, 1, 1, 2)]
+
+
+def _pred_sizes(tier: str):
+    return PRED_SIZES + PRED_THOROUGH  # cheap enough for every run
+
+
+def _rename_team(i_from: int, i_to: int):
+    """atom map: the ratings of team i_from become those of team i_to (two identical teams)."""
+    pf_mu, pf_sg = f"g.mu{i_from}_", f"g.sg{i_from}_"
+
+    def fn(s):
+        if isinstance(s, tuple) and len(s) == 2 and s[0] == "param" and isinstance(s[1], str):
+            if s[1].startswith(pf_mu):
+                return ("param", f"g.mu{i_to}_" + s[1][len(pf_mu):])
+            if s[1].startswith(pf_sg):
+                return ("param", f"g.sg{i_to}_" + s[1][len(pf_sg):])
+        return s
+
+    return fn
+
+
+def win_terms(prog, roles, sizes, order=None, atom_map=None):
+    """(terms by team identity, problem)"""
+    run = run_predict(prog, roles, "predict_win", sizes, order)
+    bad = run.ok()
+    if bad:
+        return None, bad
+    nums = result_numbers(run)
+    n = len(sizes)
+    if nums is None:
+        return None, f"the result is not an explicit list ({short(run.result)[:100]})"
+    if len(nums) != n:
+        return None, ("count", f"{len(nums)} numbers returned for {n} teams")
+    out = {}
+    for pos, x in enumerate(nums):
+        p = to_poly(x.sym, atom_map) if isinstance(x, Num) and x.sym is not None else poly_of(x)
+        if p is None:
+            return None, f"result[{pos}] has no term"
+        out[run.order[pos]] = p
+    return out, ""
+
+
+def c09_job(job) -> List[Dict[str, Any]]:
+    idx, tier = job
+    prog = Program()
+    roles = prog.roles()[idx]
+    out = []
+
+    def add(verdict, construct, message=""):
+        out.append(_inst("R9.9", verdict, roles, "predict_win", construct, message))
+
+    for sizes in _pred_sizes(tier):
+        n = len(sizes)
+        try:
+            base, bad = win_terms(prog, roles, sizes)
+        except Exception as e:  # noqa: BLE001
+            base, bad = None, f"abstract evaluation failed: {type(e).__name__}: {e}"
+        c_sum = f"one number per team, summing to 1: team sizes {sizes}"
+        if base is None:
+            if isinstance(bad, tuple):
+                add("VIOLATED", c_sum, bad[1])
+            else:
+                add("UNDECIDED", c_sum, bad)
+            continue
+        tot: Poly = {}
+        for p in base.values():
+            tot = p_add(tot, p)
+        z = is_zero(p_add(tot, p_const(1), -1))
+        add("HOLDS" if z else "UNDECIDED" if z is None else "VIOLATED", c_sum,
+            "" if z else "the sum could not be normalised" if z is None else f"the win probabilities sum to {show(tot, 200)}, not to 1")
+        # permuting the teams permutes the result
+        for k in range(n - 1):
+            order = list(range(n))
+            order[k], order[k + 1] = order[k + 1], order[k]
+            c = f"permuting the teams permutes the result: team sizes {sizes}, teams {k} and {k + 1} exchanged"
+            try:
+                t2, bad2 = win_terms(prog, roles, sizes, order)
+            except Exception as e:  # noqa: BLE001
+                t2, bad2 = None, f"abstract evaluation failed: {type(e).__name__}: {e}"
+            if t2 is None:
+                add("UNDECIDED", c, bad2 if not isinstance(bad2, tuple) else bad2[1])
+                continue
+            diff = [i for i in range(n) if same(base[i], t2[i]) is not True]
+            add("HOLDS" if not diff else "VIOLATED", c, "" if not diff else f"the probability of team {diff[0]} depends on where the teams stand in the list: {show(p_add(base[diff[0]], t2[diff[0]], -1), 200)}")
+        # identical teams get identical probabilities; two identical teams get one half each
+        for a in range(n):
+            for b in range(a + 1, n):
+                if sizes[a] != sizes[b]:
+                    continue
+                c = f"identical teams get identical probabilities: team sizes {sizes}, team {b} a copy of team {a}"
+                try:
+                    t3, bad3 = win_terms(prog, roles, sizes, None, _rename_team(b, a))
+                except Exception as e:  # noqa: BLE001
+                    t3, bad3 = None, f"abstract evaluation failed: {type(e).__name__}: {e}"
+                if t3 is None:
+                    add("UNDECIDED", c, bad3 if not isinstance(bad3, tuple) else bad3[1])
+                    continue
+                s = same(t3[a], t3[b])
+                msg = "" if s else f"two teams with the same ratings get different probabilities: difference {show(p_add(t3[a], t3[b], -1), 200)}"
+                if s and n == 2:
+                    half = same(t3[a], p_const(Fraction(1, 2)))
+                    if half is not True:
+                        s, msg = False, f"two identical teams get {show(t3[a], 120)}, not one half"
+                add("HOLDS" if s else "UNDECIDED" if s is None else "VIOLATED", c, msg)
+    return out
+
+
+def draw_term(prog, roles, sizes, order=None, player_order=None):
+    w_run = run_predict(prog, roles, "predict_draw", sizes, order) if player_order is None else None
+    if w_run is None:
+        # players of one team exchanged: build the game by hand
+        w = World(prog, roles, Box())
+        I = w.I
+        I.number_locals = True
+        I.explicit = True
+        common = prog.modules.get(f"{prog.package}.models.weng_lin.common")
+        if common is not None:
+            I.opaque_funcs = {common.funcs[n_].fq for n_ in CORRECTIONS if n_ in common.funcs}
+        m = w.make_model(custom_gamma=False)
+        game, players = build_game(w, sizes, order, player_order)
+        I.events.clear()
+        I.raises.clear()
+        with sym_cap(TERM_CAP):
+            res = w.call(m, "predict_draw", [game], {})
+        w_run = GameRun(roles.short, tuple(sizes), tuple(order or range(len(sizes))), w, players, res, list(I.undecided), list(I.raises), bool(w.state.bottom))
+    bad = w_run.ok()
+    if bad:
+        return None, bad
+    p = poly_of(w_run.result)
+    if p is None:
+        return None, f"the result has no term ({short(w_run.result)[:100]})"
+    return p, ""
+
+
+def c10_job(job) -> List[Dict[str, Any]]:
+    """R10.5: predict_draw does not depend on the order of the teams or of the players of a team (same term)."""
+    idx, tier = job
+    prog = Program()
+    roles = prog.roles()[idx]
+    out = []
+    for sizes in _pred_sizes(tier):
+        n = len(sizes)
+        try:
+            base, bad = draw_term(prog, roles, sizes)
+        except Exception as e:  # noqa: BLE001
+            base, bad = None, f"abstract evaluation failed: {type(e).__name__}: {e}"
+        if base is None:
+            out.append(_inst("R10.5", "UNDECIDED", roles, "predict_draw", f"order independence: team sizes {sizes}", bad))
+            continue
+        variants = []
+        for k in range(n - 1):
+            order = list(range(n))
+            order[k], order[k + 1] = order[k + 1], order[k]
+            variants.append((f"teams {k} and {k + 1} exchanged", dict(order=order)))
+        for i, sz in enumerate(sizes):
+            if sz >= 2:
+                variants.append((f"players 0 and 1 of team {i} exchanged", dict(player_order={i: [1, 0] + list(range(2, sz))})))
+        for what, kw in variants:
+            c = f"order independence: team sizes {sizes}, {what}"
+            try:
+                t2, bad2 = draw_term(prog, roles, sizes, **kw)
+            except Exception as e:  # noqa: BLE001
+                t2, bad2 = None, f"abstract evaluation failed: {type(e).__name__}: {e}"
+            if t2 is None:
+                out.append(_inst("R10.5", "UNDECIDED", roles, "predict_draw", c, bad2))
+                continue
+            s = same(base, t2)
+            out.append(_inst("R10.5", "HOLDS" if s else "UNDECIDED" if s is None else "VIOLATED", roles, "predict_draw", c,
+                             "" if s else f"the draw probability depends on the listing order: difference {show(p_add(base, t2, -1), 200)}"))
+    return out
+
+
+def _abs_atoms(p: Poly) -> List[Any]:
+    seen = []
+    for mono in p:
+        for at, e in mono:
+            if isinstance(at, tuple) and at and at[0] == "abs" and at not in seen:
+                seen.append(at)
+    return seen
+
+
+def _subst_atom(p: Poly, atom, repl: Poly) -> Optional[Poly]:
+    out: Poly = {}
+    for mono, c in p.items():
+        k = None
+        rest = []
+        for a2, e2 in mono:
+            if a2 == atom:
+                k = e2
+            else:
+                rest.append((a2, e2))
+        term: Poly = {tuple(rest): c}
+        if k is not None:
+            if k.denominator != 1 or k < 0:
+                return None
+            for _ in range(int(k)):
+                term = p_mul(term, repl)
+        out = p_add(out, term)
+    return out
+
+
+def zero_up_to_abs(p: Poly) -> Optional[bool]:
+    """p == 0 for some choice of sign of every |x| atom (each |x| is x or -x on a region of the inputs; which one is a
+    fact about run-time signs that the term domain does not decide)."""
+    atoms = _abs_atoms(p)
+    if len(atoms) > 6:
+        return None
+    undec = False
+    for signs in itertools.product((1, -1), repeat=len(atoms)):
+        q: Optional[Poly] = p
+        for at, sg in zip(atoms, signs):
+            inner: Poly = {m: c for m, c in at[1]}
+            q = _subst_atom(q, at, inner if sg == 1 else p_neg(inner))
+            if q is None:
+                break
+        if q is None:
+            undec = True
+            continue
+        z = is_zero(q)
+        if z:
+            return True
+        if z is None:
+            undec = True
+    return None if undec else False
+
+
+def rank_terms(prog, roles, sizes, order=None):
+    run = run_predict(prog, roles, "predict_rank", sizes, order)
+    bad = run.ok()
+    if bad:
+        return None, bad
+    items = result_numbers(run)
+    n = len(sizes)
+    if items is None:
+        return None, f"the result is not an explicit list ({short(run.result)[:100]})"
+    if len(items) != n:
+        return None, ("count", f"{len(items)} pairs returned for {n} teams")
+    out = {}
+    from ..ai.values import TupleV
+
+    for pos, x in enumerate(items):
+        if not (isinstance(x, TupleV) and len(x.items) == 2):
+            return None, ("shape", f"result[{pos}] is not a (rank, probability) pair ({short(x)[:80]})")
+        p = poly_of(x.items[1])
+        if p is None:
+            return None, f"the probability at result[{pos}] has no term"
+        out[run.order[pos]] = p
+    return out, ""
+
+
+def c11_job(job) -> List[Dict[str, Any]]:
+    """R11.8: one (rank, probability) pair per team in input order (probabilities move with their teams); for three or more
+    teams the probabilities plus predict_draw are 1 (up to the sign of each abs())."""
+    idx, tier = job
+    prog = Program()
+    roles = prog.roles()[idx]
+    out = []
+
+    def add(verdict, construct, message=""):
+        out.append(_inst("R11.8", verdict, roles, "predict_rank", construct, message))
+
+    for sizes in _pred_sizes(tier):
+        n = len(sizes)
+        c0 = f"one (rank, probability) pair per team: team sizes {sizes}"
+        try:
+            base, bad = rank_terms(prog, roles, sizes)
+        except Exception as e:  # noqa: BLE001
+            base, bad = None, f"abstract evaluation failed: {type(e).__name__}: {e}"
+        if base is None:
+            add("VIOLATED" if isinstance(bad, tuple) else "UNDECIDED", c0, bad[1] if isinstance(bad, tuple) else bad)
+            continue
+        add("HOLDS", c0)
+        for k in range(n - 1):
+            order = list(range(n))
+            order[k], order[k + 1] = order[k + 1], order[k]
+            c = f"the probabilities stand in input order: team sizes {sizes}, teams {k} and {k + 1} exchanged"
+            try:
+                t2, bad2 = rank_terms(prog, roles, sizes, order)
+            except Exception as e:  # noqa: BLE001
+                t2, bad2 = None, f"abstract evaluation failed: {type(e).__name__}: {e}"
+            if t2 is None:
+                add("UNDECIDED", c, bad2 if not isinstance(bad2, tuple) else bad2[1])
+                continue
+            diff = [i for i in range(n) if same(base[i], t2[i]) is not True]
+            add("HOLDS" if not diff else "VIOLATED", c, "" if not diff else f"the probability reported for team {diff[0]} depends on where the teams stand in the list")
+        if n >= 3:
+            c = f"probabilities of predict_rank + predict_draw == 1: team sizes {sizes}"
+            try:
+                d, badd = draw_term(prog, roles, sizes)
+            except Exception as e:  # noqa: BLE001
+                d, badd = None, f"abstract evaluation failed: {type(e).__name__}: {e}"
+            if d is None:
+                add("UNDECIDED", c, badd)
+                continue
+            tot: Poly = dict(d)
+            for p in base.values():
+                tot = p_add(tot, p)
+            z = zero_up_to_abs(p_add(tot, p_const(1), -1))
+            add("HOLDS" if z else "UNDECIDED" if z is None else "VIOLATED", c,
+                "" if z else "the sum could not be normalised" if z is None else "the rank probabilities and the draw probability do not add up to 1 for any choice of the signs under abs(): " + show(p_add(tot, p_const(1), -1), 220))
+    return out
+
+
+def c19_pred_job(job) -> List[Dict[str, Any]]:
+    """R19.6: the three predictions of every registered model are the same terms as the first model's (explicit small games)."""
+    tier = job
+    prog = Program()
+    rl = prog.roles()
+    out = []
+    if len(rl) < 2:
+        return out
+    ref = rl[0]
+    for sizes in _pred_sizes(tier):
+        refs = {}
+        for op, fn in (("predict_win", win_terms), ("predict_rank", rank_terms)):
+            try:
+                refs[op] = fn(prog, ref, sizes)
+            except Exception as e:  # noqa: BLE001
+                refs[op] = (None, f"abstract evaluation failed: {type(e).__name__}: {e}")
+        try:
+            refs["predict_draw"] = draw_term(prog, ref, sizes)
+        except Exception as e:  # noqa: BLE001
+            refs["predict_draw"] = (None, f"abstract evaluation failed: {type(e).__name__}: {e}")
+        for other in rl[1:]:
+            for op in ("predict_win", "predict_draw", "predict_rank"):
+                c = f"{other.short}.{op} == {ref.short}.{op}: team sizes {sizes}"
+                try:
+                    got = draw_term(prog, other, sizes) if op == "predict_draw" else (win_terms if op == "predict_win" else rank_terms)(prog, other, sizes)
+                except Exception as e:  # noqa: BLE001
+                    got = (None, f"abstract evaluation failed: {type(e).__name__}: {e}")
+                a, b = refs[op][0], got[0]
+                if a is None or b is None:
+                    why = refs[op][1] if a is None else got[1]
+                    out.append(_inst("R19.6", "UNDECIDED", other, op, c, why[1] if isinstance(why, tuple) else why))
+                    continue
+                if op == "predict_draw":
+                    s = same(a, b)
+                else:
+                    ss = [same(a[i], b[i]) for i in range(len(sizes))]
+                    s = True if all(x is True for x in ss) else False if any(x is False for x in ss) else None
+                out.append(_inst("R19.6", "HOLDS" if s else "UNDECIDED" if s is None else "VIOLATED", other, op, c,
+                                 "" if s else f"{other.short} and {ref.short} compute different {op} results for the same ratings and parameters"))
+    return out
